@@ -109,7 +109,7 @@ def check(run):
                 continue
             if got != exp:
                 j = [i for i in range(len(exp)) if got[i] != exp[i]][0]
-                if case['inputs_that_are_no_nodes']:
+                if case.get('inputs_that_are_no_nodes'):
                     # is the difference exactly that the compiled function ignores the inputs that are no nodes of the model?
                     try:
                         sol2 = m.calculate(inputs={k_: v_ for k_, v_ in zip(in_keys, iargs) if k_ in m.dsp.nodes}, outputs=out_keys)
@@ -158,7 +158,7 @@ def check(run):
                 continue
             if got != exp:
                 j = [i for i in range(len(exp)) if got[i] != exp[i]][0]
-                if case['inputs_that_are_no_nodes']:
+                if case.get('inputs_that_are_no_nodes'):
                     # is the difference exactly that the compiled function ignores the inputs that are no nodes of the model?
                     try:
                         sol2 = m.calculate(inputs={k_: v_ for k_, v_ in zip(in_keys, iargs) if k_ in m.dsp.nodes}, outputs=out_keys)
@@ -170,6 +170,44 @@ def check(run):
             ov = [(0, rr[1] + i, 1, vals[i][0]) for i in range(len(vals))] + ([(0, 1, 4, iargs[1])] if len(in_keys) > 1 else [])
             req.append(wb.to_wire(outs, overrides=ov))
             pend.append((wb, outs, [e[0][0] for e in exp], c2))
+    # ---- (1c) a volatile cell among the precedents: what is frozen at compile time must not be observable --------------------
+    # In every full calculation the dependents of a volatile cell are functions of the one value that cell shows; the compiled
+    # function must return tuples with the same relation, for every argument (relations only: the random value itself is free).
+    P = "'[v.xlsx]S'!"
+    for k in range(12 if quick else 300):
+        a, b = rnd.choice([1, 2, 3, 10]), rnd.choice([0, 1, 5, -2])
+        vol = rnd.choice(['RAND()', 'RAND()*1', 'IF(RAND()<2,RAND(),0)'])
+        d = {P + 'A1': '=' + vol, P + 'C1': 3,
+             P + 'B1': '=%sA1*%d+%d' % (P, a, b),                      # depends on the volatile cell only
+             P + 'B2': '=%sB1+%sC1' % (P, P),                           # ... and on the input
+             P + 'B3': '=IF(%sC1>100,%sA1,%sB1)' % (P, P, P),           # which branch depends on the argument
+             P + 'B4': '=%sC1*2' % P}                                    # independent of the volatile cell
+        case = {'workbook': d, 'stream': 'volatile-precedent', 'inputs': [P + 'C1'], 'outputs': [P + x for x in ('A1', 'B1', 'B2', 'B3', 'B4')]}
+        try:
+            m = bookrun.ExcelModel().from_dict(d)
+            m.calculate()
+            f = m.compile(inputs=case['inputs'], outputs=case['outputs'])
+        except Exception as ex:
+            run.violation('ExcelModel.compile raised %s: %s' % (type(ex).__name__, str(ex)[:100]), case)
+            continue
+        seen = set()
+        for t in range(4):
+            c = rnd.choice([0, 1, 7, 150, 2.5, 1000])
+            run.count(1, (json.dumps(d, sort_keys=True), c, t), True, 'volatile-precedent')
+            try:
+                v = [float(np.asarray(getattr(x, 'value', x), object).ravel()[0]) for x in f(c)]
+            except Exception as ex:
+                run.violation('the compiled function raised %s: %s' % (type(ex).__name__, str(ex)[:100]), dict(case, args=[c]))
+                continue
+            A1, B1, B2, B3, B4 = v
+            exp = [A1, A1 * a + b, (A1 * a + b) + c, A1 if c > 100 else A1 * a + b, c * 2.0]
+            if v != exp:
+                j = [i for i in range(5) if v[i] != exp[i]][0]
+                run.violation('compiled function returns %r for %s although it returns %r for the volatile cell A1 in the same call: '
+                              'a full calculation with the same inputs gives %r there' % (v[j], case['outputs'][j], A1, exp[j]), dict(case, args=[c], returned=v))
+            seen.add(A1)
+        if len(seen) == 1 and 'RAND' in vol:
+            run.violation('the volatile cell shows the same value %r in 4 calls of the compiled function (frozen at compile time)' % A1, case)
     # ---- (2) single formulas ------------------------------------------------------------------------------------------
     nf = 250 if quick else 6000
     refs_pool = ['A1', 'B2', 'C3', 'A1:A3', 'B1:B3', 'D4']     # broadcast-compatible shapes only
